@@ -8,6 +8,7 @@
 //!   read   `read::assigning::assign` on attributed texts, and `read [-r] v...` scripts on
 //!          a standard input in the virtual shell
 //!   single `expand_word` (the single-field mode used for assignment values) on words
+//!   text   `expand_text` (here-document bodies) on texts
 //!   words  commands `args WORD...` in a generated environment (variables, IFS,
 //!          positional parameters, nounset), through `expand_words` on the AST the
 //!          real parser produced (api) and as a script in the virtual shell (script)
@@ -20,7 +21,7 @@ use futures_util::FutureExt as _;
 use yash_env::option::{Option as ShOption, State as OptState};
 use yash_env::variable::{IFS, Scope, Value, VariableSet};
 use yash_semantics::expansion::phrase::Phrase;
-use yash_semantics::expansion::{ErrorCause, expand_word, expand_words};
+use yash_semantics::expansion::{ErrorCause, expand_text, expand_word, expand_words};
 use yash_syntax::syntax::{
     Modifier, Param, ParamType, SimpleCommand, SpecialParam, SwitchAction, SwitchCondition, Text,
     TextUnit, TrimLength, TrimSide, Word, WordUnit,
@@ -430,6 +431,78 @@ fn stream_phrase(w: &mut CasesWriter, rng: &mut Rng, args: &Args) {
 // ---------------------------------------------------------------------------
 // stream: words
 
+/// What the conversion of units with supplied results needs to know about the case.
+#[derive(Default)]
+struct Ctx {
+    npos: usize,
+    home: Option<String>,
+    /// set when a command substitution was converted (such words run in script mode only)
+    used_subst: bool,
+}
+thread_local! {
+    static CTX: std::cell::RefCell<Ctx> = std::cell::RefCell::new(Ctx::default());
+    static SUBST_CACHE: std::cell::RefCell<std::collections::HashMap<String, String>> =
+        std::cell::RefCell::new(std::collections::HashMap::new());
+}
+fn set_ctx(e: &EnvSpec) {
+    CTX.with(|c| {
+        *c.borrow_mut() = Ctx {
+            npos: e.positional.len(),
+            home: e.vars.iter().find(|(n, _)| n == "HOME").map(|(_, v)| v.clone()),
+            used_subst: false,
+        }
+    });
+}
+fn ctx_used_subst() -> bool {
+    CTX.with(|c| c.borrow().used_subst)
+}
+
+/// Output of a command substitution: the command is run on its own in the virtual shell
+/// (the generated commands do not depend on the shell state).
+fn subst_output(command: &str) -> Option<String> {
+    CTX.with(|c| c.borrow_mut().used_subst = true);
+    if let Some(v) = SUBST_CACHE.with(|m| m.borrow().get(command).cloned()) {
+        return Some(v);
+    }
+    let o = vsh::run_script(command);
+    if o.panicked.is_some() || o.deadlock || o.timeout || o.status != 0 {
+        return None;
+    }
+    SUBST_CACHE.with(|m| m.borrow_mut().insert(command.to_string(), o.stdout.clone()));
+    Some(o.stdout)
+}
+
+/// Value of `A op B` (A, B: non-negative integers or `$#`), computed here.
+fn arith_value(content: &Text) -> Option<(String, String)> {
+    let npos = CTX.with(|c| c.borrow().npos);
+    let mut expr = String::new();
+    let mut term = String::from("TNil");
+    for u in content.0.iter().rev() {
+        term = format!("(TCons {} {})", match u {
+            TextUnit::Literal(c) => format!("(TLit {})", *c as u32),
+            TextUnit::RawParam { param, .. } if param.r#type == ParamType::Special(SpecialParam::Number) => "(TParam PNum MNone)".to_string(),
+            _ => return None,
+        }, term);
+    }
+    for u in &content.0 {
+        match u {
+            TextUnit::Literal(c) => expr.push(*c),
+            _ => expr.push_str(&npos.to_string()),
+        }
+    }
+    let toks: Vec<&str> = expr.split_whitespace().collect();
+    let joined = toks.join("");
+    let pos = joined[1..].find(|c| c == '+' || c == '-' || c == '*')? + 1;
+    let a: i64 = joined[..pos].parse().ok()?;
+    let b: i64 = joined[pos + 1..].parse().ok()?;
+    let v = match &joined[pos..pos + 1] {
+        "+" => a + b,
+        "-" => a - b,
+        _ => a * b,
+    };
+    Some((term, v.to_string()))
+}
+
 fn param_coq(p: &Param) -> Option<String> {
     match p.r#type {
         ParamType::Variable => Some(format!("(PVar {})", coq::s(&p.id))),
@@ -477,7 +550,23 @@ fn tunit_coq(u: &TextUnit) -> Option<String> {
         TextUnit::BracedParam(bp) => {
             Some(format!("(TParam {} {})", param_coq(&bp.param)?, modifier_coq(&bp.modifier)?))
         }
-        _ => None,
+        TextUnit::CommandSubst { content, .. } => {
+            Some(format!("(TSubst {})", coq::s(&subst_output(content)?)))
+        }
+        TextUnit::Backquote { content, .. } => {
+            use yash_syntax::syntax::BackquoteUnit;
+            let cmd: String = content
+                .iter()
+                .map(|b| match b {
+                    BackquoteUnit::Literal(c) | BackquoteUnit::Backslashed(c) => *c,
+                })
+                .collect();
+            Some(format!("(TSubst {})", coq::s(&subst_output(&cmd)?)))
+        }
+        TextUnit::Arith { content, .. } => {
+            let (t, v) = arith_value(content)?;
+            Some(format!("(TArith {} {})", t, coq::s(&v)))
+        }
     }
 }
 
@@ -494,7 +583,18 @@ fn wunit_coq(u: &WordUnit) -> Option<String> {
         WordUnit::Unquoted(t) => Some(format!("(WUnq {})", tunit_coq(t)?)),
         WordUnit::SingleQuote(s) => Some(format!("(WSq {})", coq::s(s))),
         WordUnit::DoubleQuote(t) => Some(format!("(WDq {})", text_coq(t)?)),
-        _ => None,
+        WordUnit::DollarSingleQuote(es) => {
+            use yash_syntax::syntax::Unquote as _;
+            Some(format!("(WDsq {})", coq::s(&es.unquote().0)))
+        }
+        WordUnit::Tilde { name, followed_by_slash } => {
+            let home = if name.is_empty() {
+                CTX.with(|c| c.borrow().home.clone()).unwrap_or_else(|| "~".to_string())
+            } else {
+                format!("~{name}") // the virtual system has no user database
+            };
+            Some(format!("(WTilde {} {})", coq::s(&home), coq::b(*followed_by_slash)))
+        }
     }
 }
 
@@ -536,6 +636,9 @@ impl EnvSpec {
     /// Shell commands that establish this state.
     fn script(&self) -> String {
         let mut s = String::from("set -f; ");
+        if !self.vars.iter().any(|(n, _)| n == "HOME") {
+            s.push_str("unset HOME; ");
+        }
         for (n, v) in &self.vars {
             if n != "IFS" {
                 s.push_str(&format!("{}={}; ", n, sh_quote(v)));
@@ -657,7 +760,11 @@ fn make_env(env_spec: &EnvSpec) -> yash_env::Env<vsh::Sys> {
 fn emit_single(w: &mut CasesWriter, env_spec: &EnvSpec, text: &str) {
     let Some(words) = parse_words(text) else { return };
     for word in &words {
+        set_ctx(env_spec);
         let Some(term_w) = word_coq(word) else { return };
+        if ctx_used_subst() {
+            continue; // command substitution needs a running shell: script mode only
+        }
         let r = catch_unwind(AssertUnwindSafe(|| {
             let mut env = make_env(env_spec);
             match expand_word(&mut env, word).now_or_never().expect("expansion blocked") {
@@ -685,6 +792,41 @@ fn emit_single(w: &mut CasesWriter, env_spec: &EnvSpec, text: &str) {
     }
 }
 
+/// `expand_text` (as for a here-document body) on a text.
+fn emit_text(w: &mut CasesWriter, env_spec: &EnvSpec, src: &str) -> bool {
+    let Ok(text) = src.parse::<Text>() else { return false };
+    set_ctx(env_spec);
+    let Some(term_t) = text_coq(&text) else { return false };
+    if ctx_used_subst() {
+        return false;
+    }
+    let r = catch_unwind(AssertUnwindSafe(|| {
+        let mut env = make_env(env_spec);
+        match expand_text(&mut env, &text).now_or_never().expect("expansion blocked") {
+            Ok((value, _)) => Ok(value),
+            Err(e) => Err(error_kind(&e.cause)),
+        }
+    }))
+    .unwrap_or(Err(100));
+    let out = match &r {
+        Ok(v) => format!("(inl {})", coq::s(v)),
+        Err(k) => format!("(inr {})", coq::n(*k as u64)),
+    };
+    let term = format!("(CText {} {} {})", env_spec.coq(), term_t, out);
+    let json = format!(
+        "{{\"stream\":\"text\",\"env\":{},\"text\":{},\"value\":{}}}",
+        env_spec.json(),
+        json_str(src),
+        match &r {
+            Ok(v) => json_str(v),
+            Err(k) => format!("\"error {k}\""),
+        }
+    );
+    w.count("stream:text");
+    w.push(&term, &json, &[], Some(format!("text|{}|{}", env_spec.json(), src)));
+    true
+}
+
 fn strs_coq(l: &[String]) -> String {
     if l.is_empty() {
         return "(@nil str)".into();
@@ -698,6 +840,7 @@ fn strs_coq(l: &[String]) -> String {
 fn emit_words(w: &mut CasesWriter, env_spec: &EnvSpec, cmd_texts: &[String], modes: &[bool], tag: &str) -> bool {
     let mut cmds: Vec<Vec<Word>> = vec![];
     let mut cmd_terms = vec![];
+    set_ctx(env_spec);
     for t in cmd_texts {
         let Some(words) = parse_words(t) else { return false };
         let mut wt = vec![];
@@ -708,6 +851,8 @@ fn emit_words(w: &mut CasesWriter, env_spec: &EnvSpec, cmd_texts: &[String], mod
         cmd_terms.push(if wt.is_empty() { "(@nil word)".to_string() } else { coq::list(&wt) });
         cmds.push(words);
     }
+    let script_only = [false];
+    let modes: &[bool] = if ctx_used_subst() { &script_only } else { modes };
     for &api in modes {
         let (out, stop) = if api { run_api(env_spec, &cmds) } else { run_script(env_spec, cmd_texts) };
         let outs: Vec<String> = out.iter().map(|l| strs_coq(l)).collect();
@@ -777,6 +922,9 @@ fn random_env(r: &mut Rng) -> EnvSpec {
     if let Some(i) = r.pick(&WORD_IFS) {
         vars.push(("IFS".to_string(), i.to_string()));
     }
+    if r.chance(1, 3) {
+        vars.push(("HOME".to_string(), r.pick(&["/home/u", "/", "", "/h/", "/a b", "/a:b"]).to_string()));
+    }
     let np = r.below(4);
     let positional = (0..np).map(|_| r.pick(&WORD_VALUES).to_string()).collect();
     EnvSpec { vars, positional, nounset: r.chance(1, 5) }
@@ -801,19 +949,19 @@ fn gen_param(r: &mut Rng, depth: u32, dq: bool) -> String {
         4..=7 => {
             let op = *r.pick(&["-", ":-", "=", ":=", "?", ":?", "+", ":+"]);
             let name = if name == "#" { "x" } else { name };
-            format!("${{{}{}{}}}", name, op, gen_units(r, depth - 1, dq, true, false))
+            format!("${{{}{}{}}}", name, op, gen_units(r, depth - 1, dq, true, false, true))
         }
         _ => {
             let op = *r.pick(&["#", "##", "%", "%%"]);
             let name = if name == "#" { "x" } else { name };
-            format!("${{{}{}{}}}", name, op, gen_units(r, depth - 1, dq, true, true))
+            format!("${{{}{}{}}}", name, op, gen_units(r, depth - 1, dq, true, true, true))
         }
     }
 }
 
-/// A sequence of word units (dq: inside double quotes; inner: inside `${...}`;
-/// pat: the word is a trim pattern).
-fn gen_units(r: &mut Rng, depth: u32, dq: bool, inner: bool, pat: bool) -> String {
+/// A sequence of word units (dq: inside double quotes; inner: inside `${...}` or `"..."`;
+/// pat: the word is a trim pattern; brace: directly the word of a `${...}`).
+fn gen_units(r: &mut Rng, depth: u32, dq: bool, inner: bool, pat: bool, brace: bool) -> String {
     let n = if inner { r.below(4) } else { 1 + r.below(4) };
     let mut s = String::new();
     let mut last_was_raw_param = false;
@@ -838,8 +986,28 @@ fn gen_units(r: &mut Rng, depth: u32, dq: bool, inner: bool, pat: bool) -> Strin
                 format!("\\{}", c)
             }
             4 if !dq => format!("'{}'", r.pick(&["", "a", " ", "a b", ":", "$x", "*"])),
-            5..=6 if !dq && depth > 0 => format!("\"{}\"", gen_units(r, depth - 1, true, true, false)),
+            // double quotes; also nested ones inside the word of a `${...}` that is itself
+            // inside double quotes; often followed by $* / $@ in the same quotes
+            5..=6 if (!dq || brace) && depth > 0 => {
+                let mut inner_text = gen_units(r, depth - 1, true, true, false, false);
+                if r.chance(1, 3) {
+                    inner_text.push_str(*r.pick(&[" $*", "$@", "$*", " $@ "]));
+                }
+                format!("\"{}\"", inner_text)
+            }
             5 if !dq => "\"\"".into(),
+            7 if !pat && r.chance(1, 2) => {
+                // command substitution (output supplied to the model), arithmetic, $'...'
+                match r.below(if dq { 5 } else { 7 }) {
+                    0 => format!("$(echo {})", sh_quote(r.pick(&["a b", " a ", "a:b", "", ":", "x\ty", "a  b "]))),
+                    1 => format!("`echo {}`", sh_quote(r.pick(&["a b", ":a:", "", "b"]))),
+                    2 => format!("$(echo {}; echo; echo)", sh_quote(r.pick(&["a", " ", "a\n\nb"]))),
+                    3 => format!("$(({}{}{}))", r.below(30), r.pick(&["+", "-", " * ", " - "]), r.below(30)),
+                    4 => format!("$(( $# {} {} ))", r.pick(&["+", "-", "*"]), r.below(12)),
+                    5 => format!("$'{}'", r.pick(&["a b", "\\t", "", "a\\x41:", "\\'"])),
+                    _ => "$''".to_string(),
+                }
+            }
             _ => {
                 let p = gen_param(r, depth, dq);
                 raw = !p.starts_with("${");
@@ -875,7 +1043,7 @@ fn stream_words(w: &mut CasesWriter, rng: &mut Rng, args: &Args) {
         positional: vec!["1 2".into(), "".into(), "3".into()],
         nounset: false,
     };
-    let corpus: [&[&str]; 14] = [
+    let corpus: [&[&str]; 16] = [
         &["$x", "\"$x\"", "'$x'", "\\$x"],
         &["$y", "\"$y\""],
         &["$@", "\"$@\"", "$*", "\"$*\""],
@@ -887,6 +1055,8 @@ fn stream_words(w: &mut CasesWriter, rng: &mut Rng, args: &Args) {
         &["${#x}", "${#e}", "${#u}", "${#}", "$#"],
         &["${y#:}", "${y##*:}", "${y%:}", "${y%%:*}", "${x#\"a \"}"],
         &["${4-$@}", "\"${4-$@}\"", "${4-\"$@\"}"],
+        &["\"${x:+\"$x\"} $*\"", "\"${x:+\"$x\"}$@\"", "\"${u-\"q\"} $* \"", "\"${e:-\"\"}$*\"", "\"a${x+\"${u-\"n\"}\"}$*\""],
+        &["${x:+\"$x\"}$*", "\"${x:+\"$x\" $*} $*\"", "\"${4-\"$@\"} $*\""],
         &["${u?msg}", "after"],
         &["${1=z}", "after"],
         &["${e:?}", "after"],
@@ -897,6 +1067,25 @@ fn stream_words(w: &mut CasesWriter, rng: &mut Rng, args: &Args) {
     }
     for t in ["$x $* \"$*\" $@ \"$@\" a\"$@\"b ${u-$@} ${u:=$*} '' \"\" \\a${e}"] {
         emit_single(w, &base, t);
+    }
+    for home in [None, Some("/home/u"), Some(""), Some("/h/"), Some("/a b")] {
+        let mut e = base.clone();
+        if let Some(h) = home {
+            e.vars.push(("HOME".into(), h.into()));
+        }
+        for cmd in [
+            &["~", "~/x", "~root", "\"~\"", "a~", "~$x", "${u-~}", "~/"][..],
+            &["$(echo 'a b')", "\"$(echo 'a b')\"", "`echo ':a:'`", "x$(echo; echo)y", "$(echo 'a'; echo; echo)\"\""],
+            &["$((1+2))", "$(( $# * 4 ))", "\"$((3 - 5))\"", "a$((10*10))b"],
+            &["$'a b'", "$''", "$'\\t:'$x", "\"$'a'\""],
+        ] {
+            let texts: Vec<String> = vec![cmd.join(" ")];
+            assert!(emit_words(w, &e, &texts, &[true, false], "corpus"), "units corpus: {texts:?}");
+            emit_single(w, &e, &texts[0]);
+        }
+    }
+    for t in ["a \"$x\" '$y' \\$x \\a $* $@ ${u-\"q\" 'r'} ${#x} $((2*3)) ${y#:} ~", "", "$e", "${u?}", "${u:=v w}$u"] {
+        assert!(emit_text(w, &base, t), "text corpus: {t:?}");
     }
     let mut nu = base.clone();
     nu.nounset = true;
@@ -994,6 +1183,43 @@ fn stream_words(w: &mut CasesWriter, rng: &mut Rng, args: &Args) {
         }
     }
 
+    // ---- named exhaustive space E4: every word of 1..4 tokens over 6 tokens x 3 environments
+    // (thorough: all of it, `exhaustive:E4:complete` is counted; quick: every 12th word)
+    let tokens4: [&str; 6] = ["a", ":", "${x}", "\"$@\"", "$*", "\"\""];
+    let envs4: Vec<EnvSpec> = [(Some(" \t\n"), 2usize), (Some(" :"), 0), (Some(""), 2)]
+        .iter()
+        .map(|(ifs, np)| {
+            let mut vars = vec![("x".to_string(), " a:b ".to_string()), ("e".to_string(), String::new())];
+            if let Some(i) = ifs {
+                vars.push(("IFS".to_string(), i.to_string()));
+            }
+            EnvSpec { vars, positional: ["p q", ":r"][..*np].iter().map(|s| s.to_string()).collect(), nounset: false }
+        })
+        .collect();
+    let stride4 = args.scale(12, 1);
+    let mut n4 = 0usize;
+    for len in 1..=4 {
+        let total = tokens4.len().pow(len as u32);
+        for code in 0..total {
+            n4 += 1;
+            if n4 % stride4 != 0 {
+                continue;
+            }
+            let mut k = code;
+            let mut word = String::new();
+            for _ in 0..len {
+                word.push_str(tokens4[k % tokens4.len()]);
+                k /= tokens4.len();
+            }
+            for e in &envs4 {
+                assert!(emit_words(w, e, &[word.clone()], &[true], "E4"));
+            }
+        }
+    }
+    if stride4 == 1 {
+        w.count("exhaustive:E4:complete (1554 words of 1..4 tokens over {a : ${x} \"$@\" $* \"\"} x 3 environments)");
+    }
+
     // ---- random words ---------------------------------------------------------------------
     let n = args.scale(500, 8000);
     let mut k = 0u64;
@@ -1006,7 +1232,18 @@ fn stream_words(w: &mut CasesWriter, rng: &mut Rng, args: &Args) {
         let mut texts = vec![];
         for _ in 0..ncmd {
             let nw = 1 + r.below(2);
-            let ws: Vec<String> = (0..nw).map(|_| gen_units(&mut r, 2, false, false, false)).collect();
+            let ws: Vec<String> = (0..nw)
+                .map(|_| {
+                    let body = gen_units(&mut r, 2, false, false, false, false);
+                    match r.below(12) {
+                        0 => format!("~{body}"),
+                        1 => format!("~/{body}"),
+                        2 => "~".to_string(),
+                        3 => format!("~root/{body}"),
+                        _ => body,
+                    }
+                })
+                .collect();
             texts.push(ws.join(" "));
         }
         texts.push("\"${x-U}\" \"${y-U}\" \"${u-U}\"".to_string());
@@ -1014,6 +1251,10 @@ fn stream_words(w: &mut CasesWriter, rng: &mut Rng, args: &Args) {
         if emit_words(w, &e, &texts, modes, "random") {
             if made % 4 == 1 {
                 emit_single(w, &e, &texts[0]);
+            }
+            if made % 4 == 2 {
+                let body = gen_units(&mut r, 2, true, true, false, false);
+                emit_text(w, &e, &body);
             }
             made += 1;
         } else {
@@ -1224,6 +1465,10 @@ fn main() {
          Ifs::ranges and split (non-trivial = two or more fields or an empty field); phrase: \
          pairs of phrases through append, phrases x IFS through ifs_join (all non-trivial); \
          words: commands in generated environments (non-trivial = a command whose number of \
-         fields differs from its number of words, or an expansion error); distinct by input",
+         fields differs from its number of words, or an expansion error); distinct by input. \
+         exhaustive: true (thorough tier only) for the named space E4 = all words of 1..4 tokens \
+         over {a, :, ${x}, \"$@\", $*, \"\"} x 3 environments (IFS default / ' :' / empty; 2, 0, 2 \
+         positional parameters), and for split inputs of length <= 6 over {a, ' ', ':', quoted ' '} \
+         with IFS ' :', and read texts of length <= 6 over {a, ' ', ':'} x 1..3 variables",
     );
 }
